@@ -34,7 +34,7 @@ Definition spec_f64 := @spec_float 53 1024 _ _.
 Extraction Language OCaml.
 Cd "../.build/ocaml".
 Extraction "model.ml" sym_run all_kernels export_keys run_key_int run_key_f32 run_key_f64
-           safe_cores run_safe_int run_safe_f32 run_safe_f64 select_chain the_chain
+           safe_cores run_safe_int run_safe_f32 run_safe_f64 select_chain select_spec the_chain
            spec_int spec_f32 spec_f64
            filled_dense zeroed_dense sum_to_register max_to_register min_to_register
            f32_of_bits f64_of_bits bits_of_f32 bits_of_f64 int_ops f32_ops f64_ops int_math float_math
